@@ -395,6 +395,15 @@ def _leaf_assign(body: List[ast.stmt]) -> str:
             a = _leaf_assign(inner.body)
             b = _leaf_assign(inner.orelse)
             return f"cached:{a}|scanned:{b}"
+    # since repair 59ceb16: `same_folder = <the cache was read from this folder object>` and the cache is used only for that object
+    if len(body) == 2 and isinstance(body[0], ast.Assign) and ast.unparse(body[0].targets[0]) == "same_folder" and isinstance(body[1], ast.If):
+        inner = body[1]
+        if ast.unparse(body[0].value) != "self._cached_uuid is None or folder_state.get('uuid') == self._cached_uuid":
+            raise ValueError("unrecognised same_folder expression: " + ast.unparse(body[0].value))
+        if ast.unparse(inner.test) in ("not folder_state['scanned_this_step'] and same_folder", "same_folder and (not folder_state['scanned_this_step'])"):
+            a = _leaf_assign(inner.body)
+            b = _leaf_assign(inner.orelse)
+            return f"cached-of-this-folder:{a}|scanned-or-other-folder:{b}"
     raise ValueError("unrecognised scan-gate branch")
 
 
@@ -403,6 +412,26 @@ def folder_cache_updated(cls: ast.ClassDef) -> bool:
         if isinstance(node, ast.Assign) and ast.unparse(node.targets[0]) == "self.cached_obs":
             return ast.unparse(node.value) == "obs"
     return False
+
+
+def folder_cache_identity(cls: ast.ClassDef) -> Tuple[str, str, str]:
+    """(what `__init__` assigns to `_cached_uuid`, what `observe` assigns to it — after `self.cached_obs = obs`, on the present path —,
+    the statements of the branch for a folder that is not in the state)"""
+    init = [ast.unparse(n.value) for n in ast.walk(find_method(cls, "__init__"))
+            if isinstance(n, (ast.Assign, ast.AnnAssign)) and ast.unparse(n.targets[0] if isinstance(n, ast.Assign) else n.target) == "self._cached_uuid"]
+    obs = find_method(cls, "observe")
+    top = [st for st in obs.body if not (isinstance(st, ast.Expr) and isinstance(st.value, ast.Constant))]
+    upd = "<none>"
+    for i, st in enumerate(top):
+        if isinstance(st, ast.Assign) and ast.unparse(st.targets[0]) == "self._cached_uuid":
+            prev = top[i - 1]
+            if not (isinstance(prev, ast.Assign) and ast.unparse(prev.targets[0]) == "self.cached_obs"):
+                raise ValueError("FolderObservation.observe: _cached_uuid is not updated right after cached_obs")
+            upd = ast.unparse(st.value)
+    absent = next((st for st in top if isinstance(st, ast.If) and ast.unparse(st.test) == "folder_state is NOT_PRESENT_IN_STATE"), None)
+    if absent is None or absent.orelse:
+        raise ValueError("FolderObservation.observe: branch for an absent folder not recognised")
+    return (init[0] if len(init) == 1 else "<none>"), upd, "; ".join(ast.unparse(x) for x in absent.body)
 
 
 def space_built_incrementally(cls: ast.ClassDef) -> bool:
@@ -604,6 +633,9 @@ def emit() -> str:
     t, e = scan_gate(find_method(cls["FolderObservation"], "observe"), "file_system_requires_scan")
     out.append(f'def folderScanGate : String × String := ("{t}", "{e}")')
     out.append(f"def folderCacheUpdated : Bool := {'true' if folder_cache_updated(cls['FolderObservation']) else 'false'}")
+    ci = folder_cache_identity(cls["FolderObservation"])
+    out.append("/-- (`_cached_uuid` at construction, its update on every present observation, the whole branch for an absent folder) -/")
+    out.append("def folderCacheIdentity : String × String × String := (" + ", ".join('"' + x.replace('"', "'") + '"' for x in ci) + ")")
     cap, dflt, src, reads = nmne_gate(find_method(cls["NICObservation"], "observe"))
     out.append(f"def nmneCaptureBranch : Bool := {'true' if cap else 'false'}")
     out.append(f"def nmneDefaultWhenNotCapturing : Bool := {'true' if dflt else 'false'}")
